@@ -254,6 +254,7 @@ class Run:
         obs = {}
         for h in hs:
             o = Obligation(h["ob"], "kani", h.get("kind", "complete"), h.get("bound"), h.get("functions", []), h.get("desc", ""))
+            o.helper_for = h.get("helper_for")
             o.harness = u["modpath"] + "::" + h["name"] if "::" not in h["name"] else h["name"]
             o.hfile = h.get("file")
             o.known = h.get("known")
@@ -398,6 +399,17 @@ class Run:
                 o.status = "known"
                 self.known_lines.append("KNOWN-FINDING: property=%s %s" % (self.prop, kf["what"]))
                 continue
+            if o.engine == "kani" and getattr(o, "helper_for", None):
+                # a contract on a private helper that is stronger than the property needs (derived from the current call
+                # sites): unless a property-level obligation it serves fails on this tree as well, the failure is
+                # undecided (the helper's domain may have been narrowed harmlessly), not a violation
+                by_name = {x.name: x for x in self.obs}
+                if not any(t in by_name and by_name[t].status == "failed" for t in o.helper_for):
+                    o.status = "undecided"
+                    o.detail = "helper contract fails, but none of the property-level obligations %s fails on this tree: %s" % (
+                        ", ".join(o.helper_for), (o.detail or "")[:400])
+                    self.undecided.append("%s: %s" % (o.name, o.detail[:300]))
+                    continue
             if o.engine == "kani":
                 payload = getattr(o, "replay_payload", {"engine": "kani", "failed_checks": o.detail})
                 if getattr(o, "has_input", False) and getattr(o, "reproduced", None) is False:
